@@ -35,6 +35,7 @@ type Conn struct {
 	rwaiters   []chan struct{}
 	closedDUT  bool
 	peerClosed bool
+	peerClosedFirst bool
 	peerReset  bool
 	wErrOnce   int // number of upcoming writes that fail
 	wBlocked   bool
@@ -127,6 +128,9 @@ func (c *Conn) wakeOneReaderLocked() {
 
 // Write implements net.Conn for the DUT.
 func (c *Conn) Write(p []byte) (int, error) {
+	// a write is a point at which the kernel may run somebody else: with the gate scheduler on it is
+	// a scheduling decision like a lock acquisition
+	simrt.Yield()
 	for {
 		c.mu.Lock()
 		if c.closedDUT {
@@ -233,6 +237,9 @@ func (c *Conn) deliver(b []byte) {
 // peerClose closes the connection from the peer side (driver goroutine).
 func (c *Conn) peerClose(reset bool) {
 	c.mu.Lock()
+	if !c.closedDUT && !c.peerClosed {
+		c.peerClosedFirst = true // the neighbour ended this connection, not the DUT
+	}
 	c.rEOF = true
 	c.peerClosed = true
 	c.peerReset = reset
